@@ -8,6 +8,9 @@ MCShapes == { [id |-> "plain", path |-> "/announce", query |-> "none"],
               [id |-> "deep", path |-> "/a/b/announce.php", query |-> "none"],
               [id |-> "one", path |-> "/announce", query |-> "passkey=abc123"],
               [id |-> "two", path |-> "/announce", query |-> "a=1&b=x%20y"],
-              [id |-> "empty", path |-> "/announce", query |-> ""] }
+              [id |-> "empty", path |-> "/announce", query |-> ""],
+              \* a parameter value may itself contain ? / = (only the first ? of a URL starts the query)
+              [id |-> "qmark", path |-> "/announce", query |-> "passkey=abc&ref=/list?page=2"],
+              [id |-> "trail", path |-> "/announce", query |-> "k=v&"] }
 MCTotals == {"0", "1", "4294967297"}
 ====
